@@ -745,8 +745,9 @@ Section Handlers.
     (if existsb (ts_is_subset ctsi) (c_tsi cr) && existsb (ts_is_subset ctsr) (c_tsr cr) then ret tt
      else raise X_TsUnacceptable) ;;;
     let cr' := cr <| c_out := pr_spi ch |> <| c_prop := ch |> <| c_tsi := [ctsi] |> <| c_tsr := [ctsr] |> in
-    modc (fun c => c <| creating := Some cr' |> <| children := children c ++ [cr'] |>) ;;;
-    create_child_sa cr' ck true.
+    modc (fun c => c <| creating := Some cr' |>) ;;;
+    create_child_sa cr' ck true ;;;
+    modc (fun c => c <| children := children c ++ [cr'] |>).
 
   (* ---------------------------------------------------------------------------------------------- *)
   (** ** Request handlers *)
